@@ -124,7 +124,7 @@ func runC20(p *eng.Prog, r *eng.Report, tier string) {
 		case strings.HasSuffix(xs, ".Identity"):
 			var fields []string
 			okShape := true
-			for _, st := range lit.Body.List {
+			for _, st := range stripNoops(lit.Body.List) {
 				switch s := st.(type) {
 				case *ast.AssignStmt:
 				case *ast.IfStmt, *ast.SwitchStmt:
@@ -162,9 +162,9 @@ func runC20(p *eng.Prog, r *eng.Report, tier string) {
 			}
 			c.r.Check("C20.2", f, "identity comparator", "T: identities are ordered by Category, then Type, then Lang (one != / < pair each, then 'false')", lit.Pos(), okShape && strings.Join(fields, ",") == "Category,Type,Lang", "comparator compares "+strings.Join(fields, ","))
 		case strings.HasSuffix(xs, ".Features"):
-			okc := len(lit.Body.List) == 1
+			okc := len(stripNoops(lit.Body.List)) == 1
 			if okc {
-				rs, ok := lit.Body.List[0].(*ast.ReturnStmt)
+				rs, ok := stripNoops(lit.Body.List)[0].(*ast.ReturnStmt)
 				okc = ok && eng.Glob("(*.Features[p0].Var < *.Features[p1].Var)", lf.Norm(rs.Results[0], nil))
 			}
 			c.r.Check("C20.2", f, "feature comparator", "T: features are ordered by Var", lit.Pos(), okc, "")
